@@ -323,7 +323,12 @@ def run_check(pid, tier, seed, jobs):
     if new_sigs:
         return 1
     if problems:
+        shown = set()
         for p in problems:
+            key = p[-300:]
+            if key in shown:
+                continue
+            shown.add(key)
             print(f'INCONCLUSIVE property={pid} reason={p}')
         return 2
     return 0
